@@ -24,6 +24,11 @@ Ops (see `harness/go/cmd/c06`):
  level L1 (the shared queue alone; a case starting with `qnew`):
   qnew → ok | q-enq id=<k> prio=<p> → ok | q-deq → <id>|- | q-rm id=<k> → ok | q-size → <n>
   await bound=<ms>    (mode=real only) → blocked=<ids|-> within=1
+ two Queue processors A and B on ONE shared state and ONE quota (a case starting with `cfg2`):
+  cfg2 sizea=<n> ttla=<s> sizeb=<n> ttlb=<s> max=<m> win=<s> t0=<ms>   → ok
+  arrive id=<k> prio=<p|none> proc=a|b → queued | blocked       (ids are global: 0,1,2,... in order of arrival)
+  tick order=ab|ba                     → to=<ids|-> a=<events|-> b=<events|->
+                                         (clock +100 ms; both watchers; then one pass of each loop in that order)
 -/
 open LunarVerif LunarVerif.Proto LunarVerif.C06
 
@@ -88,6 +93,9 @@ structure RunSt where
   held : Bool := false       -- the loop stands at the gate before a re-push
   scanned : Bool := false    -- while held: the watcher had real time for a scan since the clock last moved
   q : Option QSt := none     -- level L1: the shared queue alone
+  duo : Option Duo := none   -- two processors on one quota
+  cfgB : Cfg := ⟨0, 1000, 0, 1000⟩
+  own : List (Bool × Nat) := []   -- global id ↦ (belongs to B, local id)
 
 def RunSt.s (st : RunSt) : St := st.x.s
 def RunSt.op (st : RunSt) (op : Op) : RunSt := { st with x := applyOp st.cfg st.x op }
@@ -95,14 +103,16 @@ def RunSt.op (st : RunSt) (op : Op) : RunSt := { st with x := applyOp st.cfg st.
 /-- Events emitted since the trace had length `n0`, oldest first. -/
 def newEvents (s : St) (n0 : Nat) : List Ev := (s.trace.take (s.trace.length - n0)).reverse
 
-def fmtLog (evs : List Ev) : String :=
+def fmtLogWith (g : Nat → Nat) (evs : List Ev) : String :=
   joinOr (evs.filterMap fun
-    | .pop i => some s!"d:{i}"
-    | .qtry i true => some s!"i:{i},a:{i}:1"
-    | .qtry i false => some s!"i:{i},a:{i}:0,x:{i}"
-    | .repush i _ => some s!"e:{i}"
-    | .done i true _ => some s!"v:{i}"
+    | .pop i => some s!"d:{g i}"
+    | .qtry i true => some s!"i:{g i},a:{g i}:1"
+    | .qtry i false => some s!"i:{g i},a:{g i}:0,x:{g i}"
+    | .repush i _ => some s!"e:{g i}"
+    | .done i true _ => some s!"v:{g i}"
     | _ => none)
+
+def fmtLog (evs : List Ev) : String := fmtLogWith id evs
 
 def timeouts (evs : List Ev) : List Nat :=
   evs.filterMap fun | .done i false _ => some i | _ => none
@@ -111,11 +121,68 @@ def fmtIds (ids : List Nat) : String := joinOr (ids.map toString)
 
 def hasPanic (evs : List Ev) : Bool := evs.any fun | .panic => true | _ => false
 
+/-- global id of the `k`-th request of a processor. -/
+def globalOf (own : List (Bool × Nat)) (isB : Bool) (k : Nat) : Nat :=
+  (own.findIdx? fun e => e.1 == isB && e.2 == k).getD 0
+
+def parseCfg2 (ws : List String) : Option (Cfg × Cfg × Nat) := do
+  let sa ← kvInt ws "sizea"
+  let ta ← kvNat ws "ttla"
+  let sb ← kvInt ws "sizeb"
+  let tb ← kvNat ws "ttlb"
+  let qmax ← kvInt ws "max"
+  let win ← kvNat ws "win"
+  let t0 ← kvNat ws "t0"
+  if ta == 0 || tb == 0 || win == 0 then none
+  pure (⟨sa, ta * 1000, qmax, win * 1000⟩, ⟨sb, tb * 1000, qmax, win * 1000⟩, t0)
+
+def duoStep (cfgA cfgB : Cfg) (own : List (Bool × Nat)) (d : Duo) (op : String) (ws : List String) :
+    Option (Duo × List (Bool × Nat) × String) :=
+  match op with
+  | "arrive" =>
+    match kvNat ws "id", parsePrio ws, kv ws "proc" with
+    | some id, some p, some pr =>
+      if id != own.length || (pr != "a" && pr != "b") then none else
+      if pr == "a" then
+        let k := d.a.s.n
+        let a' := applyOp cfgA d.a (.arrive p)
+        some ({ d with a := a' }, own ++ [(false, k)], if (a'.s.reqs k).pc == .parked then "queued" else "blocked")
+      else
+        let k := d.b.s.n
+        let b' := applyOp cfgB d.b (.arrive p)
+        some ({ d with b := b' }, own ++ [(true, k)], if (b'.s.reqs k).pc == .parked then "queued" else "blocked")
+    | _, _, _ => none
+  | "tick" =>
+    match kv ws "order" with
+    | some ord =>
+      if ord != "ab" && ord != "ba" then none else
+      let na := d.a.s.trace.length
+      let nb := d.b.s.trace.length
+      let d1 := d.watch cfgA cfgB
+      let toA := (timeouts (newEvents d1.a.s na)).map (globalOf own false)
+      let toB := (timeouts (newEvents d1.b.s nb)).map (globalOf own true)
+      let na1 := d1.a.s.trace.length
+      let nb1 := d1.b.s.trace.length
+      let d2 := if ord == "ab" then (d1.passA cfgA).passB cfgB else (d1.passB cfgB).passA cfgA
+      let la := fmtLogWith (globalOf own false) (newEvents d2.a.s na1)
+      let lb := fmtLogWith (globalOf own true) (newEvents d2.b.s nb1)
+      let to := (toA ++ toB).toArray.qsort (· < ·) |>.toList
+      some (d2, own, s!"to={fmtIds to} a={la} b={lb}")
+    | none => none
+  | _ => none
+
+
 def runStep (st : RunSt) (line : String) : RunSt × String :=
   match words line with
   | ["case", id] => ({}, s!"case {id}")
   | "lock" :: ws => (st, lockAnswer ws)
-  | ["qnew"] => if st.ready || st.q.isSome then (st, "bad-op") else ({ st with q := some {} }, "ok")
+  | "cfg2" :: ws =>
+    if st.ready || st.q.isSome || st.duo.isSome then (st, "bad-op") else
+    match parseCfg2 ws with
+    | some (ca, cb, t0) =>
+      ({ st with cfg := ca, cfgB := cb, duo := some { a := { s := St.init t0 }, b := { s := St.init t0 } } }, "ok")
+    | none => (st, "bad-op")
+  | ["qnew"] => if st.ready || st.q.isSome || st.duo.isSome then (st, "bad-op") else ({ st with q := some {} }, "ok")
   | "q-enq" :: ws =>
     match st.q, kvNat ws "id", kvNat ws "prio" with
     | some q, some id, some p => ({ st with q := some (q.enq id p) }, "ok")
@@ -136,11 +203,16 @@ def runStep (st : RunSt) (line : String) : RunSt × String :=
     if st.ready then (st, "bad-op") else
     match parseCfg ws with
     | some (cfg, t0, real) =>
-      if st.q.isSome then (st, "bad-op") else
+      if st.q.isSome || st.duo.isSome then (st, "bad-op") else
     if real && cfg.qmax != 0 then (st, "bad-op")
       else ({ cfg := cfg, x := { s := St.init t0 }, ready := true, real := real }, "ok")
     | none => (st, "bad-op")
   | op :: ws =>
+    if let some d := st.duo then
+      match duoStep st.cfg st.cfgB st.own d op ws with
+      | some (d', own', ans) => ({ st with duo := some d', own := own' }, ans)
+      | none => (st, "bad-op")
+    else
     if !st.ready then (st, "bad-op")
     else if st.dead then (st, "dead")
     else if st.drained then (st, "bad-op")
@@ -252,15 +324,25 @@ structure JudgeSt where
   qh : List QEv := []                   -- level L1 history, most recent first
   isQ : Bool := false
   settled : Bool := true                -- the TTL watcher had its chance since the clock last moved
+  isDuo : Bool := false                 -- two processors: `hist` is A's history, `histB` B's
+  cfgB : Cfg := ⟨0, 1000, 0, 1000⟩
+  histB : List Ev := []
+  ownB : List Nat := []                 -- global ids of B's requests
+  side : Bool := false                  -- events are currently recorded on B's side
   bad : Option String := none
 
-def JudgeSt.push (s : JudgeSt) (es : List Ev) : JudgeSt := { s with hist := es.reverse ++ s.hist }
+def JudgeSt.push (s : JudgeSt) (es : List Ev) : JudgeSt :=
+  if s.side then { s with histB := es.reverse ++ s.histB } else { s with hist := es.reverse ++ s.hist }
 
 def parseIds (w : String) : Option (List Nat) :=
   if w == "-" then some [] else ((w.splitOn ",").filter fun t => !t.startsWith "stuck").mapM String.toNat?
 
 /-- A verdict observed for `i`: the `done` event and — unless removals are held — the slot release. -/
 def JudgeSt.verdict (s : JudgeSt) (i : Nat) (ok : Bool) : JudgeSt :=
+  if s.isDuo then
+    let side0 := s.side
+    { ({ s with side := s.ownB.contains i }).push [.done i ok s.now, .unwatched i] with side := side0 }
+  else
   if s.hold then { s.push [.done i ok s.now] with held := s.held ++ [i] }
   else s.push [.done i ok s.now, .unwatched i]
 
@@ -288,7 +370,21 @@ def judgeStep (s : JudgeSt) (op out : String) : JudgeSt :=
     match parseCfg ws with
     | some (cfg, t0, real) => { s with cfg := cfg, now := t0, real := real }
     | none => s
+  | "cfg2" :: ws =>
+    match parseCfg2 ws with
+    | some (ca, cb, t0) => { s with cfg := ca, cfgB := cb, now := t0, isDuo := true }
+    | none => s
   | "arrive" :: ws =>
+    if s.isDuo then
+      match kvNat ws "id", parsePrio ws, kv ws "proc", out with
+      | some i, some p, some pr, "queued" =>
+        { ({ s with side := pr == "b", ownB := if pr == "b" then i :: s.ownB else s.ownB }).push
+            [.checked i, .queued i p s.now] with side := false }
+      | some i, some _, some pr, "blocked" =>
+        { ({ s with side := pr == "b" }).push [.rejected i s.now] with side := false }
+      | _, _, _, "bad-op" => s
+      | _, _, _, _ => fail "unparsable"
+    else
     match kvNat ws "id", parsePrio ws, out with
     | some i, some p, "queued" => s.push [.checked i, .queued i p s.now]
     | some i, some _, "blocked" => s.push [.rejected i s.now]
@@ -351,6 +447,19 @@ def judgeStep (s : JudgeSt) (op out : String) : JudgeSt :=
       | some s3 => ids.foldl (fun s i => s.verdict i false) s3
       | none => fail "unparsable"
     | _, _ => if out == "bad-op" || out == "dead" then s else fail "unparsable"
+  | ["tick", ord] =>
+    match kv ows "to" >>= parseIds, kv ows "a", kv ows "b" with
+    | some ids, some la, some lb =>
+      let s1 := { s with now := s.now + 100 }
+      let s2 := ids.foldl (fun s i => s.verdict i false) s1
+      let runLog (s : JudgeSt) (side : Bool) (lg : String) : Option JudgeSt :=
+        if lg == "-" then some s else
+        ((lg.splitOn ",").foldlM parseLogItem { s with side := side }).map fun s => { s with side := false }
+      let passes := if ord == "order=ba" then [(true, lb), (false, la)] else [(false, la), (true, lb)]
+      match passes.foldlM (fun s p => runLog s p.1 p.2) s2 with
+      | some s3 => s3
+      | none => fail "unparsable"
+    | _, _, _ => if out == "bad-op" || out == "dead" then s else fail "unparsable"
   | [tk] =>
     if tk != "tick" && tk != "tick-hold" then
       (if tk == "hold-remove" then (if out == "ok" then { s with hold := true } else s)
@@ -411,6 +520,14 @@ def judgeFinish (s : JudgeSt) : String :=
   | none =>
     let h := s.hist.reverse
     if s.isQ then (if qHolds s.qh.reverse then "ok" else "fail - shared-queue-dequeue-not-a-minimum")
+    else if s.isDuo then
+      let hb := s.histB.reverse
+      if !holds s.cfg h then s!"fail - processor-A:{firstBad s.cfg h}"
+      else if !holds s.cfgB hb then s!"fail - processor-B:{firstBad s.cfgB hb}"
+      else if !endOk s.cfg s.hist s.now then "fail - processor-A:waiter-without-verdict-beyond-ttl-at-end"
+      else if !endOk s.cfgB s.histB s.now then "fail - processor-B:waiter-without-verdict-beyond-ttl-at-end"
+      else if s.stuck then "fail - harness-gave-up-waiting(stuck)"
+      else "ok"
     else if s.late then "fail - ttl-wall-clock-bound-missed(verdict-not-within-the-wall-clock-bound)"
     else if !holds s.cfg h then s!"fail - {firstBad s.cfg h}"
     else if s.settled && !endOk s.cfg s.hist s.now then "fail - waiter-without-verdict-beyond-ttl-at-end"
